@@ -79,6 +79,7 @@ fn base(name: &str, prop: &'static str, alphabet: Vec<Cmd>, depth: usize, tier: 
         start_time: 0,
         opaques: vec![],
         opaque_mod: 0,
+        vbuckets: vec![],
     }
 }
 
@@ -401,6 +402,9 @@ fn c14(tier: Tier) -> Vec<SeqCfg> {
         set(b"k5", &v10, 8, 0),
         append(K1, &v10, Zero),
         incr(K3, 1, 5, 0, Zero),
+        // stores that carry a CAS (matching, and any CAS on an absent key) go through eviction too
+        store(StoreKind::Set, K1, &v40, 9, 0, CasArg::Current),
+        store(StoreKind::Set, K2, &v10, 9, 0, CasArg::Arb(0x1234)),
         delete(K1, Zero),
         flush(None),
         flush(Some(1)),
@@ -411,7 +415,8 @@ fn c14(tier: Tier) -> Vec<SeqCfg> {
     let mut v = vec![];
     let limits: &[u64] = if tier == Tier::Quick { &[10, 34, 60, 100] } else { &[10, 34, 60, 100, 200] };
     for l in limits {
-        let mut c = base(&format!("C14/L={}", l), "C14", a.clone(), if tier == Tier::Quick { 5 } else { 7 }, tier);
+        // thorough: the two small limits (where nearly every store evicts) one level deeper
+        let mut c = base(&format!("C14/L={}", l), "C14", a.clone(), if tier == Tier::Quick { 5 } else if *l <= 34 { 7 } else { 6 }, tier);
         c.sut.policy = Policy::Random(*l);
         c.evict = Evict::Tight;
         v.push(c);
@@ -510,6 +515,8 @@ fn c11(tier: Tier) -> Vec<SeqCfg> {
     let d = if tier == Tier::Quick { 5 } else { 7 };
     let mut c = base("C11/all-opcodes-all-outcomes", "C11", a, d, tier);
     c.opaques = vec![0, 0xabad1dea, 0xffffffff, 0x80000001];
+    // by command index: two thirds of the commands of every kind carry a non-zero vbucket id
+    c.vbuckets = vec![0, 0x0007, 0xffff];
     vec![c]
 }
 
